@@ -1075,11 +1075,14 @@ class ExpandFactory(StrategyFactory):
     """yields the Expand strategy (a factory yielding strategies) and, for prefixes of length >= 2, also the ready
     expansion rule of the class with the last letter removed (foreign parent)"""
 
-    def __init__(self, mode="", foreign=False):
+    def __init__(self, mode="", foreign=False, decoy=False):
         self.mode = mode
         self.foreign = foreign
+        self.decoy = decoy  # first yield a strategy that does not apply to the class (the searcher tolerates that)
 
     def __call__(self, c):
+        if self.decoy:
+            yield Peel(self.mode, cut=99)
         if self.foreign and not c.just_prefix and len(c.prefix) >= 2:
             yield Expand(self.mode)(PW(c.prefix[:-1], c.patterns, c.alphabet, False, c.params))
         yield Expand(self.mode)
@@ -1088,16 +1091,17 @@ class ExpandFactory(StrategyFactory):
         return "expand factory"
 
     def __repr__(self):
-        return f"ExpandFactory({self.mode!r},{self.foreign})"
+        return f"ExpandFactory({self.mode!r},{self.foreign}" + (",decoy=True)" if self.decoy else ")")
 
     @classmethod
     def from_dict(cls, d):
-        return cls(d.get("mode", ""), d.get("foreign", False))
+        return cls(d.get("mode", ""), d.get("foreign", False), d.get("decoy", False))
 
     def to_jsonable(self):
         d = super().to_jsonable()
         d["mode"] = self.mode
         d["foreign"] = self.foreign
+        d["decoy"] = self.decoy
         return d
 
 
@@ -1119,6 +1123,8 @@ def make_pack(mode="", inferral=False, symmetry=False, iterative=False, factory=
         exp = [[ExpandFactory(mode, False)]]
     elif factory == "foreign":
         exp = [[ExpandFactory(mode, True)]]
+    elif factory == "decoy":
+        exp = [[ExpandFactory(mode, False, True)]]
     elif factory == "lookahead":
         exp = [[LookAhead(mode)]]
     else:
